@@ -21,7 +21,7 @@ func init() {
 	register(&Prop{
 		ID:  "C11",
 		Run: runC11,
-		Rule: "one case = (N, M, tick, level set of the wrapped core, message alphabet with measured budget classes, member: sequential history / concurrent inside an open window / concurrent straddling a window edge / clock stepping back / concurrent tasks each on its own key at a level not used before) and the generated (level, message, timestamp, via-With?) entries, under one seeded schedule with a yield before every atomic operation of the sampler; " +
+		Rule: "one case = (N, M, tick, level set of the wrapped core, message alphabet with measured budget classes, member: sequential history / concurrent inside an open window / concurrent straddling a window edge / clock stepping back / concurrent tasks each on its own key at a level not used before / unordered timestamps inside a span shorter than the tick) and the generated (level, message, timestamp, via-With?) entries, under one seeded schedule with a yield before every atomic operation of the sampler; " +
 			"non-trivial = at least one entry was dropped and one admitted, or at least 2 tasks; distinct = distinct hash of (scheduling decisions, sequence of (level, budget class, admitted?))",
 		Real: []string{"zapcore.NewSamplerWithOptions / sampler.Check / sampler.With / counter.IncCheckReset / counters.get", "sync/atomic operations (simatomic: yield, then the real operation)"},
 		Stub: []string{"wrapped core (records Check/Write per entry)", "SamplerHook (records decisions per entry)", "entry timestamps"},
@@ -151,7 +151,10 @@ func runC11(c *Ctx) {
 		}
 		return l >= zapcore.ErrorLevel || l == zapcore.DebugLevel-1
 	}
-	member := g.Weighted(5, 3, 2, 1, 2) // 0 sequential, 1 concurrent in window, 2 concurrent straddling, 3 clock stepping back, 4 concurrent on disjoint keys
+	member := g.Weighted(5, 3, 2, 1, 2, 1) // 0 sequential, 1 concurrent in window, 2 concurrent straddling, 3 clock stepping back, 4 concurrent on disjoint keys, 5 unordered stamps inside a span shorter than the tick
+	if member == 5 && tick < 4 {
+		member = 0
+	}
 	inner := &c11core{w: w}
 	hook := func(e zapcore.Entry, d zapcore.SamplingDecision) {
 		rec := &w.recs[c11id(e)]
@@ -303,6 +306,10 @@ func runC11(c *Ctx) {
 		}
 		for i := 0; i < n; i++ {
 			switch member {
+			case 5:
+				// timestamps in no particular order, all within half a tick of t0
+				off := time.Duration(g.Draw(int(min64(int64(tick)/2, 1000))))
+				p = append(p, mk(levels[1+g.Draw(2)*2], g.Draw(2), t0.Add(off), g.Chance(3)))
 			case 4:
 				switch g.Weighted(6, 1, 1, 1, 1) {
 				case 1:
@@ -471,8 +478,8 @@ func runC11(c *Ctx) {
 					if !account(e, "sequential") {
 						return
 					}
-					if member == 3 {
-						continue // clock stepped back: only the accounting is judged
+					if member == 3 || member == 5 {
+						continue // stamps not in order: only the accounting is judged per entry (member 5: plus the span bound below)
 					}
 					got := w.recs[e.id].forwarded == 1
 					if got != admit {
@@ -505,6 +512,57 @@ func runC11(c *Ctx) {
 	}
 	if admitted > 0 && droppedN > 0 {
 		c.Nontrivial = true
+	}
+	if member == 5 {
+		// All entries of a key are stamped within a span shorter than the tick.
+		// However windows are laid out, tick-long windows that do not overlap
+		// meet such a span in at most two places, so the entries are shared out
+		// between at most two windows: no more can have been admitted than the
+		// best split into two windows allows.
+		inWindow := func(k int) int {
+			a := k
+			if a > N {
+				a = N
+				if M > 0 {
+					a += (k - N) / M
+				}
+			}
+			return a
+		}
+		per := map[key]int{}
+		adm := map[key]int{}
+		for _, p := range progs {
+			for _, e := range p {
+				if !w.enabled(e.lvl) || e.lvl < zapcore.DebugLevel || e.lvl > zapcore.FatalLevel {
+					continue
+				}
+				k := key{e.lvl, class[e.msg]}
+				per[k]++
+				adm[k] += w.recs[e.id].forwarded
+			}
+		}
+		var keys []key
+		for k := range per {
+			keys = append(keys, k)
+		}
+		sort.Slice(keys, func(i, j int) bool {
+			if keys[i].lvl != keys[j].lvl {
+				return keys[i].lvl < keys[j].lvl
+			}
+			return keys[i].cls < keys[j].cls
+		})
+		for _, k := range keys {
+			n, best := per[k], 0
+			for a := 0; a <= n; a++ {
+				if v := inWindow(a) + inWindow(n-a); v > best {
+					best = v
+				}
+			}
+			if adm[k] > best {
+				c.Fail("C11: more entries of one key were admitted within a span shorter than the tick than two windows allow", "level %d class %d: %d entries stamped within %v of each other (in no particular order), tick %v, N=%d M=%d: %d admitted, at most %d possible", k.lvl, k.cls, n, time.Duration(min64(int64(tick)/2, 1000)), tick, N, M, adm[k], best)
+				return
+			}
+		}
 	}
 	if member == 4 {
 		for t, p := range progs {
